@@ -50,6 +50,11 @@ Explain(kind, r) ==
   ELSE IF kind \in {"described-validator-differs", "described-hash256-differs", "describe-not-a-fixpoint"} /\ r.inexactlit
           /\ "fractionalLiteralTruncated" \in Open
   THEN "fractionalLiteralTruncated"
+  \* Known deviation "optionalIndexNextToNamed": an object with declared properties AND an index signature whose value is optional
+  \* (Partial<{ a: string; [key: string]: string }>) is printed as { a?: string, [K in string]?: string }; a mapped type cannot
+  \* have other members, the text does not parse.  r.optixnamed: the text has such an object literal (syntactic projection).
+  ELSE IF kind = "described-text-does-not-compile" /\ r.optixnamed /\ "optionalIndexNextToNamed" \in Open
+  THEN "optionalIndexNextToNamed"
   ELSE IF kind = "described-hash256-differs" /\ r.vec2 = r.vec1 /\ r.recursive /\ "unrolledRecursionDigest" \in Open
   THEN "unrolledRecursionDigest"
   ELSE IF kind \in {"described-hash256-differs", "describe-not-a-fixpoint"} /\ r.vec2 = r.vec1 /\ r.refunder
